@@ -6,6 +6,6 @@ CONSTANTS
   MaxRuns = 3
   EmitLen = 10
 VIEW View
-INVARIANTS ScheduleOK EnergyOK ClosedForm WorkOK TIOK Wit
-POSTCONDITION WitPost
+INVARIANTS ScheduleOK EnergyOK ClosedForm WorkOK TIOK
+\* vacuity: on
 CHECK_DEADLOCK FALSE
